@@ -142,7 +142,9 @@ fn replay(path: &PathBuf) -> i32 {
             ctx.foreign_keys = all.iter().filter(|k| k.is_known && k.property != prop && !ctx.known_keys.contains(&k.key)).map(|k| k.key.clone()).collect();
             ctx.panic_only = prop == "C15";
             ctx.cycles_only = prop == "C20";
-            if v["case"]["regen"]["oracle"] == "c05-nesting" {
+            if v["case"]["regen"]["oracle"] == "long-program" {
+                super::props::longprog::replay(&mut ctx, &v["case"]["regen"]);
+            } else if v["case"]["regen"]["oracle"] == "c05-nesting" {
                 // re-create the generated program and run it with the unit's own oracles (call stack, marker log)
                 super::props::flow::replay_nesting(&mut ctx, &v["case"]["regen"]);
             } else if let Some(seq) = v["case"]["sequence"].as_array() {
